@@ -688,6 +688,21 @@ def c09(tier):
             ck.count(r["name"], nontrivial=False)
             continue
         ck.count(r["name"])
+        # "available is the number of distinct solutions": the printed sequences any of the strategies can return when exhausted (no oracle involved)
+        exhausted = {s: set(map(_t, rec["full_keys"])) for s, rec in r["counts"].items()
+                     if "exception" not in rec and rec.get("full_keys") is not None and rec["available"] < 2500}
+        exist = set().union(*exhausted.values()) if exhausted else set()
+        for s, ks in exhausted.items():
+            if len(exhausted) > 1:
+                okx = ks == exist
+                ck.oblig(f"C09.as_many_as_exist({r['name']},{s})", "E", "passed" if okx else "failed",
+                         detail=None if okx else f"{len(ks)} distinct sequences when asked for more than exist; {len(exist)} distinct solutions are returned by the strategies together")
+                if not okx:
+                    ex = dict(sorted(exist - ks)[0])
+                    ck.violation("C09.as_many_as_exist", f"{_cls(d, 'fewer')}:{r['name']}:{s}",
+                                 f"design {r['name']}, {s}: asked for more sequences than exist it returns {len(ks)} distinct sequences, but {len(exist)} distinct solutions exist "
+                                 f"(returned by {[t for t, kt in exhausted.items() if kt - ks]}), e.g. never returned: {ex}", _replay(d, strategy=s),
+                                 tags=dict(kind="fewer", strategy=s, features=SC.feature_class(d)))
         for s, rec in r["counts"].items():
             if "exception" in rec:
                 continue
@@ -697,7 +712,9 @@ def c09(tier):
                 continue
             bad = None
             for row in rec["rows"]:
-                if row["returned"] != min(row["requested"], avail):
+                if "raised" in row:
+                    bad = f"requested {row['requested']} of {avail} available: raised {row['raised'][0]}: {row['raised'][1]}"
+                elif row["returned"] != min(row["requested"], avail):
                     bad = f"requested {row['requested']} of {avail} available, returned {row['returned']}"
                 elif row["keys"] is not None:
                     for k, n in Counter(map(_t, row["keys"])).items():
@@ -715,7 +732,8 @@ def c09(tier):
         ck.sample(dict(design=r["name"], available={s: rec.get("available") for s, rec in r["counts"].items()}))
     ck.rule = "one case per design of D; per design and strategy five requested counts around the number of available solutions"
     ck.trust(*TRUST[1:])
-    ck.assume("bounded design space D", "'available' is what the strategy itself returns when asked for more than exist (its agreement with the valid set is C02/C06)")
+    ck.assume("bounded design space D", "for the requested-count rows 'available' is what the strategy itself returns when asked for more than exist; that this is every distinct "
+              "solution is checked relationally (C09.as_many_as_exist: union over the strategies) and against the reference reading in C02/C06")
     return ck.finish()
 
 
